@@ -34,6 +34,15 @@ pub mod zs { use super::*; #[derive(Epserde, Debug, PartialEq, Eq, Clone, Copy)]
 // generic arguments, const-generic values and names
 pub mod g { use super::*; #[derive(Epserde, Debug, PartialEq, Eq, Clone)] pub struct G<A> { pub a: A } }
 pub mod k { use super::*; #[derive(Epserde, Debug, PartialEq, Eq, Clone, Copy)] #[repr(C)] #[zero_copy] pub struct K<const N: usize> { pub a: [u8; 4] } }
+// the same for the other three code paths of the derive (deep-copy struct, deep-copy enum, zero-copy enum): the const
+// parameter is not mirrored by any field type, so only the derive's own hashing of the value distinguishes K<2> from K<3>
+// (seeded change C04c: the deep-copy struct path hashed the names twice and the values never)
+pub mod kd { use super::*; #[derive(Epserde, Debug, PartialEq, Eq, Clone)] pub struct K<const N: usize> { pub a: Vec<u8>, pub n: u8 } }
+pub mod kdq { use super::*; #[derive(Epserde, Debug, PartialEq, Eq, Clone)] pub struct K<const Q: usize> { pub a: Vec<u8>, pub n: u8 } }
+pub mod ke { use super::*; #[derive(Epserde, Debug, PartialEq, Eq, Clone)] pub enum K<const N: usize> { A, B(Vec<u8>) } }
+pub mod keq { use super::*; #[derive(Epserde, Debug, PartialEq, Eq, Clone)] pub enum K<const Q: usize> { A, B(Vec<u8>) } }
+pub mod kz { use super::*; #[derive(Epserde, Debug, PartialEq, Eq, Clone, Copy)] #[repr(C)] #[zero_copy] pub enum K<const N: usize> { A, B(u8) } }
+pub mod kzq { use super::*; #[derive(Epserde, Debug, PartialEq, Eq, Clone, Copy)] #[repr(C)] #[zero_copy] pub enum K<const Q: usize> { A, B(u8) } }
 pub mod kq { use super::*; #[derive(Epserde, Debug, PartialEq, Eq, Clone, Copy)] #[repr(C)] #[zero_copy] pub struct K<const Q: usize> { pub a: [u8; 4] } }
 
 // enums: variant renamed / reordered / payload type
